@@ -336,6 +336,10 @@ class Interp:
         e = {'kind': kind, 'cond': self.pathcond(), 'loops': list(self.frame['loops']), 'fn': self.frame['fn']}
         e['in'] = self.frame['callee']
         e.update(kw)
+        if kind == 'diverge':
+            prev = self.effects.get(self.frames[0]['fn'], [])
+            if prev and prev[-1]['kind'] == 'diverge' and prev[-1].get('line') == e.get('line') and prev[-1]['in'] == e['in']:
+                return prev[-1]
         self.effects.setdefault(self.frames[0]['fn'], []).append(e)
         return e
 
@@ -505,7 +509,10 @@ class Interp:
                 if last:
                     val = v
                 elif v[0] == 'diverge':
-                    self.effect('diverge', what=v[1], line=v[2])
+                    if v[1] not in ('return', 'break', 'continue'):
+                        self.effect('diverge', what=v[1], line=v[2])
+                    val = v
+                    break   # the rest of the block is unreachable
             elif k == 'ItemStmt':
                 pass
         return val
@@ -640,8 +647,8 @@ class Interp:
             self.effect_at(c, 'diverge', what=a[1], line=a[2])
         if b[0] == 'diverge' and b[1] != 'return':
             self.effect_at(self.neg(c), 'diverge', what=b[1], line=b[2])
-        if a[0] == 'diverge' and a[1] == 'return' and e['else'] is None:
-            # code after `if c { return .. }` runs under !c
+        if a[0] == 'diverge' and a[1] in ('return', 'panic', 'todo', 'unimplemented', 'unreachable') and e['else'] is None:
+            # code after `if c { return .. }` / `if c { panic!() }` runs under !c
             self.frame['conds'].append(self.neg(c))
         arms = [(c, a)]
         if b[0] == 'alt':
